@@ -58,7 +58,7 @@ def check_stateless(ctx, binary, ops, tag, module, cfg, key_of, per_exec=1000, m
             op = e[step - 1]
             ncrash += 1
             p = ctx.save_replay("%s_%s_%d_%d.ops" % (tag, kind.split()[0], part_no, idx), ["reset", op])
-            ctx.report("%s:%s" % (key_of(op, kind), kind), p, "driver %s on op: %s\n%s" % (kind, op[:400], out[-1800:]))
+            ctx.report(key_of(op, kind), p, "driver %s on op: %s\n%s" % (kind, op[:400], out[-1800:]))
         if len(dr.crashes) > 40:
             ctx.notes["abandoned_" + tag] = "more than 40 driver crashes in one batch: the rest of the batch was not executed"
         r, mism, done = vlib.validate_trace(SPECDIR, module, cfg, trace, timeout=tlc_timeout, chunk_lines=10 ** 9)
@@ -169,7 +169,7 @@ def strip_part(ctx, binary):
     ctx.notes["strip_inputs_exhaustive"] = len(ops)
     rng = ctx.rng
     alpha2 = [47, 47, 42, 42, 34, 92, 10, 13, 97, 32, 110]
-    for _ in range(2000 if ctx.quick else 20000):
+    for _ in range(2000 if ctx.quick else 60000):
         ops.append("strip " + hexs([rng.choice(alpha2) for _ in range(rng.randint(8, 40))]))
     check_stateless(ctx, binary, ops, "strip", "JsonStripTrace", "JsonStripTrace.cfg", key_of, per_exec=2000, max_lines=140000)
 
@@ -317,19 +317,30 @@ def corner_texts():
 
 
 def lex_part(ctx, binary):
-    cfg = "JsonLexImpl_small.cfg" if ctx.quick else "JsonLexImpl.cfg"
-    dot = os.path.join(ctx.work, "jsonlex.dot")
-    r = vlib.tlc(SPECDIR, "JsonLexImpl", cfg, workers=8, timeout=1500, dump=dot, xmx="6g")
-    ctx.add_tlc("JsonLexImpl", r)
-    ops = []
-    if r.ok:
-        inputs, nedges = edge_inputs(dot)
-        os.remove(dot)
-        ctx.notes["acceptor_transitions"] = nedges
-        ctx.notes["acceptor_inputs_replayed"] = len(inputs)
-        ops += ["parse " + hexs(t) for t in inputs]
+    # two alphabets: 13 symbols [ ] { } , : " \ 1 n u l LF (all token kinds), and the 8 structural symbols to a greater depth
+    cfgs = ("JsonLexImpl_small.cfg", "JsonLexImpl_deep_small.cfg") if ctx.quick else ("JsonLexImpl.cfg", "JsonLexImpl_deep.cfg")
+    inputs = set()
+    nedges = 0
+    for cfg in cfgs:
+        dot = os.path.join(ctx.work, "jsonlex.dot")
+        r = vlib.tlc(SPECDIR, "JsonLexImpl", cfg, workers=8, timeout=1500, dump=dot, xmx="6g")
+        ctx.add_tlc(cfg[:-4], r)
+        if r.ok:
+            ins, ne = edge_inputs(dot)
+            inputs.update(ins)
+            nedges += ne
+        if os.path.exists(dot):
+            os.remove(dot)
+    ctx.notes["acceptor_transitions"] = nedges
+    ctx.notes["acceptor_inputs_replayed"] = len(inputs)
+    ordered = sorted(inputs, key=lambda t: (len(t), t))
+    ops = ["parse " + hexs(t) for t in ordered]
+    # transition coverage reaches every acceptor state by ONE path; to observe what the state does next (an error
+    # report in particular) every input (the 150000 shortest in the thorough tier) is also continued by probe suffixes
+    probes = [(1,), (34, 1), (49, 49, 49, 49, 1)]      # junk / close a string + junk / a long last line + junk
+    ops += ["parse " + hexs(t + sfx) for t in ordered[:150000] for sfx in probes]
     ops += ["parse " + hexs(t) for t in corner_texts() + nesting_texts(1000) + nesting_texts(37)]
-    ops += ["parse " + hexs(t) for t in random_texts(ctx.rng, 3000 if ctx.quick else 40000)]
+    ops += ["parse " + hexs(t) for t in random_texts(ctx.rng, 3000 if ctx.quick else 100000)]
     check_stateless(ctx, binary, ops, "parse", "JsonLexTrace", "JsonLexTrace.cfg", key_of, per_exec=1000, max_lines=60000)
 
 
